@@ -768,6 +768,19 @@ fn generate(a: &Args, name: &str, family: u8) -> i32 {
                 other => fails.push(serde_json::json!({"id": "C04-duplicate-key-not-reported", "what": "repeated key under the Error policy", "input": text, "observed": format!("{:?}", other.map_err(|e| crate::errs::kind(&e).to_string())), "expected": "DuplicateMappingKey"}).to_string()),
             }
         }
+        // keys that differ ONLY in a custom tag are different key nodes: no duplicate, identical under all policies
+        for text in ["!foo a: 1\n!bar a: 2\n", "{!x [1]: p, !y [1]: q}\n"] {
+            sink.count("dup_oracle.cases");
+            let run = |pol: u8| {
+                let cfg = Cfg { dup: pol, legacy_octal: false, strict_bool: false, ignore_binary: false, no_schema: false, budget: Some(Budget::default()), limits: AliasLimits::default() };
+                run_single_plain(text, &Ty::Map(Box::new(Ty::Any), Box::new(Ty::Any)), &cfg)
+            };
+            let (e, f, l) = (run(0), run(1), run(2));
+            if !(e == f && f == l && e.starts_with("ok")) {
+                fails.push(serde_json::json!({"id": "C04-custom-tags-collapse", "what": "keys that differ only in a custom tag are treated as the same key", "input": text,
+                    "observed": format!("Error: {e} ; FirstWins: {f} ; LastWins: {l}"), "expected": "no repeated key: the same successful result under all three policies"}).to_string());
+            }
+        }
         std::fs::write(format!("{}/{}.oracle.jsonl", a.out, name), fails.join("\n")).unwrap();
     }
     let nt = sink.stats.get("distinct_nontrivial").copied().unwrap_or(0);
